@@ -27,6 +27,38 @@ impl RecordsRange {
     pub fn with_bounds_static(records: &RecordsRoTbl, bounds: RecordsBounds) -> (r: anyhow::Result<Self>)
         ensures r is Ok ==> r->Ok_0.bounds() == bounds && r->Ok_0.table() == records@
     { unimplemented!() }
+
+    /// the row ids still to be yielded, ascending
+    pub uninterp spec fn rest(&self) -> Seq<RecId>;
+    /// `RecordsRange::next_filtered` (src/store/fs/ranges.rs: `self.0.next_filter_map(direction, |k, v| filter(k, v).then(|| into_entry(k, v)))`).
+    /// MODEL, same as `ByKeyRange::next_try_filter_map` (prelude/policy-ranges.rs): rows are taken from the front (Asc) or the back
+    /// (Desc) of `rest()`, the rows the filter rejects are skipped, the first row it accepts is returned as the entry of that row
+    /// (A-entry: into_entry); None iff the range is exhausted; a redb read error ends the call with Some(Err(_)) and nothing is
+    /// claimed about `rest()` after it.
+    #[verifier::external_body]
+    pub fn next_filtered<F: Fn(RecordsId<'_>, RecordsValue<'_>) -> bool>(&mut self, direction: &SortDirection, filter: F) -> (r: Option<anyhow::Result<SignedEntry>>)
+        requires forall|k: RecordsId, v: RecordsValue| #[trigger] filter.requires((k, v)),
+        ensures
+            final(self).table() == old(self).table() && final(self).bounds() == old(self).bounds(),
+            r is None ==> final(self).rest().len() == 0
+                && (forall|i: int| 0 <= i < old(self).rest().len() ==> row_filter_says(filter, old(self).table(), #[trigger] gnth(old(self).rest(), is_asc(*direction), i), false)),
+            r is Some && r->Some_0 is Ok ==> (exists|n: int| 0 <= n < old(self).rest().len() && ({
+                let id = #[trigger] gnth(old(self).rest(), is_asc(*direction), n);
+                &&& (forall|i: int| 0 <= i < n ==> row_filter_says(filter, old(self).table(), #[trigger] gnth(old(self).rest(), is_asc(*direction), i), false))
+                &&& row_filter_says(filter, old(self).table(), id, true)
+                &&& old(self).table().contains_key(id)
+                &&& r->Some_0->Ok_0@ == (EntryV { id: id, val: old(self).table()[id] })
+                &&& final(self).rest() == grem(old(self).rest(), is_asc(*direction), n + 1)
+            })),
+    { unimplemented!() }
+}
+
+/// the i-th element visited in the given direction / what remains after c elements were visited
+pub open spec fn gnth<T>(rest: Seq<T>, asc: bool, i: int) -> T { if asc { rest[i] } else { rest[rest.len() - 1 - i] } }
+pub open spec fn grem<T>(rest: Seq<T>, asc: bool, c: int) -> Seq<T> { if asc { rest.subrange(c, rest.len() as int) } else { rest.subrange(0, rest.len() - c) } }
+/// the caller's filter, applied to (a borrowed form of) the row `id` of `table`, may return `b`
+pub open spec fn row_filter_says<F: Fn(RecordsId<'_>, RecordsValue<'_>) -> bool>(filter: F, table: Map<RecId, RecVal>, id: RecId, b: bool) -> bool {
+    exists|k: RecordsId, v: RecordsValue| rid(k) == id && table.contains_key(id) && rval(v) == table[id] && #[trigger] filter.ensures((k, v), b)
 }
 
 #[verifier::external_body]
@@ -38,5 +70,25 @@ impl RecordsByKeyRange {
     #[verifier::external_body]
     pub fn with_bounds(records_by_key_table: ByKeyRoTbl, records_table: RecordsRoTbl, bounds: ByKeyBounds) -> (r: anyhow::Result<Self>)
         ensures r is Ok ==> r->Ok_0.bounds() == bounds && r->Ok_0.index() == records_by_key_table@ && r->Ok_0.table() == records_table@
+    { unimplemented!() }
+
+    /// the index ids still to be yielded, ascending
+    pub uninterp spec fn rest(&self) -> Seq<ByKeyId>;
+    /// `RecordsByKeyRange::next_filtered`: this contract is PROVED on the real text in unit U-policy-bykey
+    /// (obligation `shellsync.RecordsByKeyRange.next_filtered`, where rest() = by_key_range.rest() and table() = records_table@).
+    #[verifier::external_body]
+    pub fn next_filtered<F: Fn(RecordsByKeyId<'_>) -> bool>(&mut self, direction: &SortDirection, filter: F) -> (r: Option<anyhow::Result<SignedEntry>>)
+        requires forall|k: RecordsByKeyId| #[trigger] filter.requires((k,)),
+        ensures
+            final(self).table() == old(self).table(),
+            r is None ==> final(self).rest().len() == 0 && (forall|i: int| 0 <= i < old(self).rest().len() ==> skipped(filter, old(self).table(), #[trigger] dir_nth(old(self).rest(), is_asc(*direction), i))),
+            r is Some && r->Some_0 is Ok ==> (exists|n: int| 0 <= n < old(self).rest().len() && ({
+                let id = #[trigger] dir_nth(old(self).rest(), is_asc(*direction), n);
+                &&& (forall|i: int| 0 <= i < n ==> skipped(filter, old(self).table(), #[trigger] dir_nth(old(self).rest(), is_asc(*direction), i)))
+                &&& filter_says(filter, id, true)
+                &&& old(self).table().contains_key(bk_rec_id(id))
+                &&& r->Some_0->Ok_0@ == (EntryV { id: bk_rec_id(id), val: old(self).table()[bk_rec_id(id)] })
+                &&& final(self).rest() == dir_after(old(self).rest(), is_asc(*direction), n)
+            })),
     { unimplemented!() }
 }
